@@ -13,6 +13,7 @@ import (
 	"os"
 
 	jsonata "github.com/blues/jsonata-go"
+	"github.com/blues/jsonata-go/jtypes"
 )
 
 // programs whose outcome is sensitive to state carried between calls if anything leaks
@@ -25,6 +26,14 @@ var historyPrograms = []string{
 	`a[0] ~> $string() ~> $length()`, `($f := $sum ~> $string; $f(a))`, `a ~> $map(function($v){$v + 1})`,
 	`a^(>$)`, `c^($)`, `a{$string($): $}`, `$keys($)`, `[a, $$.a]`, `a ~> $reverse() ~> $join("-")`, `$join(c, ",")`,
 }
+
+type ptrErr struct{}
+
+func (*ptrErr) Error() string { return "boom" }
+
+type structErr struct{}
+
+func (structErr) Error() string { return "boom" }
 
 func histMain(args []string) {
 	fs := flag.NewFlagSet("hist", flag.ExitOnError)
@@ -66,7 +75,8 @@ func histMain(args []string) {
 			ext, _ := makeExtension(spec)
 			if r.Intn(6) == 0 {
 				// a value that is not a function of an accepted shape (one result, or a result and an error)
-				shape := g.pick("noresult", "three", "second_int", "second_iface", "second_string", "nonfunc_int", "nonfunc_nil", "nonfunc_string", "ok2")
+				shape := g.pick("noresult", "three", "second_int", "second_iface", "second_string", "nonfunc_int", "nonfunc_nil", "nonfunc_string", "ok2", "nonfunc_nilfunc", "ok2_ptrerr", "ok2_structerr", "ok2_ptrerr_err",
+					"opt_before_variadic", "opt_before_required", "opt_variadic", "req_opt_before_variadic")
 				spec["shape"] = shape
 				switch shape {
 				case "noresult":
@@ -87,6 +97,26 @@ func histMain(args []string) {
 					ext = jsonata.Extension{Func: "f"}
 				case "ok2":
 					ext = jsonata.Extension{Func: func() (interface{}, error) { return v, nil }}
+				case "nonfunc_nilfunc": // a function value that is nil: nothing to call
+					ext = jsonata.Extension{Func: (func() interface{})(nil)}
+				case "ok2_ptrerr": // the second result implements error through a concrete pointer type
+					spec["shape"] = "ok2"
+					ext = jsonata.Extension{Func: func() (interface{}, *ptrErr) { return v, nil }}
+				case "ok2_ptrerr_err": // ... and returns it
+					spec["shape"], spec["res"] = "ok2", "err"
+					ext = jsonata.Extension{Func: func() (interface{}, *ptrErr) { return v, &ptrErr{} }}
+				// parameter lists that break the ordering rules for Optional parameters
+				case "opt_before_variadic":
+					ext = jsonata.Extension{Func: func(jtypes.OptionalString, ...interface{}) interface{} { return v }}
+				case "req_opt_before_variadic":
+					ext = jsonata.Extension{Func: func(string, jtypes.OptionalInt, ...string) interface{} { return v }}
+				case "opt_before_required":
+					ext = jsonata.Extension{Func: func(jtypes.OptionalString, string) interface{} { return v }}
+				case "opt_variadic":
+					ext = jsonata.Extension{Func: func(...jtypes.OptionalString) interface{} { return v }}
+				case "ok2_structerr": // ... through a type that cannot be nil: every call returns an error
+					spec["shape"], spec["res"] = "ok2", "err"
+					ext = jsonata.Extension{Func: func() (interface{}, structErr) { return v, structErr{} }}
 				}
 			}
 			return spec, ext
